@@ -504,20 +504,27 @@ def run(ctx, replay_lines=None):
             whole_ev[ti] = (lines[i], split_out(outs[i])[0])
     base = len(texts) - len(seqs)
     hist_checked = 0
+    hist_errors = 0
+
+    def no_off(e):
+        """an error event carries the byte offset of the report: `e:<message>@<offset>`"""
+        return e.rsplit("@", 1)[0] if e.startswith("e:") else e
+
     for si, t in enumerate(seqs):
         w = whole_ev.get(base + si)
         if not w:
             continue
         evs = w[1].split()
-        if len(evs) != len(t["forms"]) or any(not e.startswith("v:") for e in evs):
-            continue      # an error or a form that is not exactly one value: the 1-1 alignment is lost, skip
+        alone_evs = [split_out(alone.get((si, fi), "CRASH"))[0].split() if alone.get((si, fi), "CRASH") != "CRASH" else None
+                     for fi in range(len(t["forms"]))]
+        if len(evs) != len(t["forms"]) or any(a is None or len(a) != 1 for a in alone_evs):
+            continue      # a form that is not exactly one event (value or self-contained error): the 1-1 alignment is lost, skip
         for fi, f in enumerate(t["forms"]):
-            a = alone.get((si, fi), "CRASH")
-            if a == "CRASH":
-                continue
-            aev = split_out(a)[0].split()
+            aev = alone_evs[fi]
             hist_checked += 1
-            if len(aev) != 1 or strip_sm(aev[0]) != strip_sm(evs[fi]):
+            if aev[0].startswith("e:"):
+                hist_errors += 1
+            if no_off(strip_sm(aev[0])) != no_off(strip_sm(evs[fi])):
                 sig = "parse:value-depends-on-earlier-input"
                 if sig not in reported:
                     reported.add(sig)
@@ -738,7 +745,7 @@ def run(ctx, replay_lines=None):
                 "with clone points and interleaved status/where/state/has-more/produce/error/GC); a jdn case = one value term; non-trivial = distinct protocol line",
         "samples": [lines[0][:200], lines[len(lines) // 2][:200], rt_lines[-1][:200]],
         "texts": len(texts), "schedules_per_text": nsched, "parser_runs": len(lines),
-        "oracle_failures": len(fails), "history_independence_forms_checked": hist_checked, "sequence_texts": len(seqs), "correspondence_runs": model_lines, "correspondence_diffs": len(diffs),
+        "oracle_failures": len(fails), "history_independence_forms_checked": hist_checked, "history_independence_error_forms": hist_errors, "sequence_texts": len(seqs), "correspondence_runs": model_lines, "correspondence_diffs": len(diffs),
         "jdn_terms": len(rt_lines), "jdn_results": dict(rt_stats), "jdn_printer_correspondence_diffs": len(pdiffs),
         "capacity_dumps_compared": sum(o.count(" cap:") for o in outs) if exe else 0,
         "jdn_model_roundtrip_diffs": len(mdiffs), "jdn_output_texts_through_both_parsers": len(jtexts), "jdn_output_parser_runs": jruns,
